@@ -73,6 +73,14 @@ func (h *poolHarness) apis() map[string]interface{} {
 			}
 		},
 		"boom": func() int64 { panic("injected function panic") },
+		// child of the conc block in which C17's requests park: fails for fault kind 10
+		"failif": func(k int64) {
+			if k == 10 {
+				panic("injected conc child failure")
+			}
+		},
+		// called with literal arguments that need a conversion to the parameter kinds
+		"lit": func(a int, b float64, c uint8) int64 { return int64(a) },
 		"S":    func(n string) { h.log.Add("S", n, 0) },
 	}
 }
@@ -90,6 +98,11 @@ func (h *poolHarness) start(id int64, kind int64, keys []string, call gx.Call) *
 		for k, v := range h.extraData(id, kind) {
 			data[k] = v
 		}
+	}
+	if kind == 11 {
+		// a request without any injected data (nil map): its rules fail on the missing names,
+		// the instance must still come back
+		data = nil
 	}
 	h.gates.Set(fmt.Sprint(id), obs.Hold, 0)
 	h.out = append(h.out, r)
